@@ -552,6 +552,13 @@ func pointSpace(c *mc.Ctx, tor [8]ref.Point, lam []*big.Int) {
 			reps = append(reps, &prep{k, "coords(-1)", false, edpts.FromRefScaled(pi.p, lam[2])})
 			reps = append(reps, &prep{k, "rescale(generic0)", false, edpts.Rescale(z1, lam[3])})
 			reps = append(reps, &prep{k, "coords(generic1)", false, edpts.FromRefScaled(pi.p, lam[4])})
+			// T13: ONE coordinate takes a special value (X, Y, T = +-1; Z = 1/3) while the point is ordinary
+			for _, sl := range specialLambdas(pi.p) {
+				reps = append(reps, &prep{k, "coords(" + sl.name + ")", false, edpts.FromRefScaled(pi.p, sl.l)})
+				if sl.viaHook {
+					reps = append(reps, &prep{k, "rescale(" + sl.name + ")", false, edpts.Rescale(z1, sl.l)})
+				}
+			}
 			q := refmul.BaseMul(big.NewInt(int64(3 + k)))
 			var s, d curve.EdwardsPoint
 			s.Add(edpts.FromRef(pi.p.Sub(q)), edpts.FromRef(q))
@@ -775,4 +782,30 @@ func montSpace(c *mc.Ctx, receivers []recv) {
 			w.Fail("MontgomeryPoint.Equal", fmt.Sprintf("Equal(%x,%x)=%d want %d", a, b, got, want), map[string]string{"a": hx(a), "b": hx(b)})
 		}
 	})
+}
+
+type slambda struct {
+	name    string
+	l       *big.Int
+	viaHook bool // also through the hook multiplication (library limbs)
+}
+
+// specialLambdas returns the projective scalings of (x : y : 1 : xy) that give
+// ONE coordinate a special value: lambda = 1/3 (Z = 1/3), 1/x and -1/x (X = +-1),
+// 1/y and -1/y (Y = +-1 with Z != 1 unless the point is the identity / the
+// 2-torsion point), 1/t (T = 1), where defined.
+func specialLambdas(p ref.Point) []slambda {
+	x, y := ref.FMod(p.X), ref.FMod(p.Y)
+	t := ref.FMul(x, y)
+	out := []slambda{{"1/3", ref.FInv(big.NewInt(3)), false}}
+	if x.Sign() != 0 {
+		out = append(out, slambda{"1/X", ref.FInv(x), false}, slambda{"-1/X", ref.FNeg(ref.FInv(x)), false})
+	}
+	if y.Sign() != 0 {
+		out = append(out, slambda{"1/Y", ref.FInv(y), true}, slambda{"-1/Y", ref.FNeg(ref.FInv(y)), false})
+	}
+	if t.Sign() != 0 {
+		out = append(out, slambda{"1/T", ref.FInv(t), false})
+	}
+	return out
 }
